@@ -46,6 +46,8 @@ def run(prog, chk):
     from props import C10 as _C10, C09 as _C09
     chk.rule(_C10.registration_keys_agree, prog, chk)  # `start="#b"` resolves against the element registered under that id: a stale provisional registration answers with a half-defined box
     chk.rule(_C09.prev_point, prog, chk)  # `start="^"` after a <point>: the point is the previous element
+    from props import C19 as _C19t
+    chk.rule(_C19t.text_not_altered, prog, chk)  # a connector written with start and end tag and white space between them is a connector
 
 
 def _lit(body, t, i):
